@@ -54,7 +54,7 @@ class Pipeline(hg.Pipeline):
         os.makedirs(d, exist_ok=True)
         dj = os.path.join(d, "design.json")
         json.dump(design, open(dj, "w"))
-        env = self.ctx.goenv()
+        env = self.ctx.goenv(gen=True)
         env["PATH"] = self.protobin + os.pathsep + env.get("PATH", "")
         try:
             p = subprocess.run([self.genhost, "-design", dj, "-out", d, "-cmds", cmds], cwd=self.root, env=env,
@@ -75,14 +75,14 @@ class Pipeline(hg.Pipeline):
         if not todo:
             return {}
         spec = ",".join("d%d=%s" % (i, "+".join(s["name"] for s in designs[i]["services"])) for i in todo)
-        p = subprocess.run([self.mkgrpcrunner, "-root", self.root, "-designs", spec], cwd=self.root, env=self.ctx.goenv(),
+        p = subprocess.run([self.mkgrpcrunner, "-root", self.root, "-designs", spec], cwd=self.root, env=self.ctx.goenv(gen=True),
                            stdout=subprocess.PIPE, stderr=subprocess.PIPE, text=True, timeout=900)
         if p.returncode != 0:
             raise core.Infra("mkgrpcrunner failed (%d): %s" % (p.returncode, p.stderr[-3000:]))
         bindir = os.path.join(self.root, "bin")
         os.makedirs(bindir, exist_ok=True)
         out = os.path.join(bindir, "grpcrunner")
-        p = subprocess.run(["go", "build"] + (["-race"] if race else []) + ["-o", out, "./runner"], cwd=self.root, env=self.ctx.goenv(),
+        p = subprocess.run(["go", "build"] + (["-race"] if race else []) + ["-o", out, "./runner"], cwd=self.root, env=self.ctx.goenv(gen=True),
                            stdout=subprocess.PIPE, stderr=subprocess.STDOUT, text=True, timeout=1800)
         if p.returncode != 0:
             raise core.Infra("building the gRPC runner failed: %s" % p.stdout[-3000:])
